@@ -524,7 +524,7 @@ var builtinRename = map[string]string{
 	"mapLen": "gh_mapLen", "allocated": "gh_allocated", "pureOf": "gh_pureOf",
 	"uf": "gh_uf", "ufb": "gh_ufb", "ufr": "gh_ufr", "seqOf": "gh_seqOf", "wrote": "gh_wrote", "div": "gh_div", "mod": "gh_mod",
 	"sameElems": "gh_sameElems", "abs": "gh_abs", "min": "gh_min", "max": "gh_max",
-	"count": "gh_count", "sum": "gh_sum", "upd": "gh_upd", "hdr": "gh_hdr", "kvDomain": "gh_kvDomain", "kvState": "gh_kvState", "kvHas": "gh_kvHas", "kvVal": "gh_kvVal", "kvWrites": "gh_kvWrites", "bytesId": "gh_bytesId", "keyOf": "gh_keyOf", "sameRef": "gh_sameRef", "defined": "gh_defined", "argIs": "gh_argIs", "argAs": "gh_argAs", "btHas": "gh_btHas", "btNil": "gh_btNil", "btBytes": "gh_btBytes", "arrOf": "gh_arrOf", "ordDet": "gh_ordDet", "anyOf": "gh_anyOf", "unavail": "gh_unavail", "errIs": "gh_errIs", "mapEq": "gh_mapEq", "emptyMap": "gh_emptyMap",
+	"count": "gh_count", "sum": "gh_sum", "upd": "gh_upd", "hdr": "gh_hdr", "kvDomain": "gh_kvDomain", "kvState": "gh_kvState", "kvHas": "gh_kvHas", "kvVal": "gh_kvVal", "kvWrites": "gh_kvWrites", "bytesId": "gh_bytesId", "keyOf": "gh_keyOf", "sameRef": "gh_sameRef", "defined": "gh_defined", "argIs": "gh_argIs", "argc": "gh_argc", "argAs": "gh_argAs", "btHas": "gh_btHas", "btNil": "gh_btNil", "btBytes": "gh_btBytes", "arrOf": "gh_arrOf", "ordDet": "gh_ordDet", "anyOf": "gh_anyOf", "unavail": "gh_unavail", "errIs": "gh_errIs", "mapEq": "gh_mapEq", "emptyMap": "gh_emptyMap",
 }
 
 var identCallRe = regexp.MustCompile(`\b([A-Za-z_]\w*)\s*\(`)
@@ -600,6 +600,7 @@ func gh_ufb(name string, args ...any) bool { return false }
 func gh_ufr[T any](name string, args ...any) T { var z T; return z }
 func gh_argAs[T any](i int) T { var z T; return z }
 func gh_local[T any](name string) T { var z T; return z }
+func gh_argc() int { return 0 }
 func gh_div(a, b int) int                 { return a / b }
 func gh_mod(a, b int) int                 { return a % b }
 func gh_abs(a int) int                    { if a < 0 { return -a }; return a }
